@@ -71,10 +71,13 @@ class C11(Check):
         cfg["ensemble"] = rng.randint(1, 2)
         n = rng.randint(1, 6) if tier == "thorough" else rng.randint(1, 4)
         env = {"folder": rng.random() < 0.5, "n_jobs": rng.choice([1, 1, 2, 4]),
-               "sched": {"mode": rng.choice(["random", "pct", "mainfirst", "othersfirst"]), "seed": rng.randrange(2 ** 31), "p_line": 0.0},
-               "trace_lines": False}
-        return {"engine": "calsim", "config": cfg, "env": env, "ops": [["calibrate", n], ["calibrate", rng.randint(1, 2)]],
-                "sim_seed": rng.randrange(2 ** 31)}
+               }
+        env["sched"], env["trace_lines"] = calsim.gen_sched(rng, cfg["scheduler"]["kind"] == "rl")
+        scn = {"engine": "calsim", "config": cfg, "env": env, "ops": [["calibrate", n], ["calibrate", rng.randint(1, 2)]],
+               "sim_seed": rng.randrange(2 ** 31)}
+        if cfg["scheduler"]["kind"] == "rl" and rng.random() < (0.15 if tier == "quick" else 0.05):
+            scn["real_threads"] = rng.randrange(1, 1000)      # confirmation with real OS threads in a subprocess
+        return scn
 
     def judge_fault(self, scn, base, seam, at, res, boundaries):
         f = {"kind": "raise", "seam": seam, "at": at}
@@ -152,6 +155,8 @@ class C11(Check):
                     res.stats["fault-did-not-fire"] += 1
                 digests.append(sim.digest())
         res.stats["fault-positions-enumerated"] += n_model + n_loss + n_sample
+        if scn.get("real_threads") and scn["config"]["scheduler"]["kind"] == "rl" and n_model:
+            self.real_thread_probe(scn, scn["real_threads"] % n_model, res)
         if scn["config"]["scheduler"]["kind"] == "rl":
             res.stats["probe:rl-config"] += 1
         res.digest = jdigest(digests)
@@ -160,7 +165,45 @@ class C11(Check):
                       "ops": scn["ops"], "env": scn["env"], "fault_positions": {"model": n_model, "loss": n_loss, "sampler": n_sample}}
         return res
 
+    def real_thread_probe(self, scn, k, res):
+        """the same RL configuration with REAL threads in a subprocess: the process must be able to exit"""
+        import json
+        import os
+        import subprocess
+        import sys
+        import tempfile
+        from pathlib import Path
+
+        from sim.core import HOME
+        fd, path = tempfile.mkstemp(prefix="verif-c11-real-", suffix=".json")
+        os.close(fd)
+        try:
+            Path(path).write_text(json.dumps({k2: v for k2, v in scn.items() if k2 != "expect"}))
+            try:
+                p = subprocess.run([sys.executable, str(HOME / "sim" / "realrun.py"), path, str(k)], capture_output=True, text=True, timeout=90)
+                line = next((ln for ln in p.stdout.splitlines() if ln.startswith("REALRUN ")), None)
+            except subprocess.TimeoutExpired as e:
+                out = (e.stdout or b"")
+                out = out.decode() if isinstance(out, bytes) else out
+                line = next((ln for ln in out.splitlines() if ln.startswith("REALRUN ")), None)
+                res.add("thread-left-running", "real-threads:process-cannot-exit",
+                        f"real threads, model fault at invocation {k}: the interpreter did not exit within 90 s after calibrate() raised ({line})")
+                return
+        finally:
+            os.unlink(path)
+        res.stats["real-thread-subprocess-probes"] += 1
+        if line is None:
+            raise RuntimeError("real-thread probe produced no result: " + p.stderr[-600:])
+        if "PROPAGATED" not in line and "NO-FAULT" not in line:
+            res.add("exception-not-propagated", "real-threads", f"real threads, model fault at invocation {k}: {line}")
+        if "NOT-REUSABLE" in line:
+            res.add("not-reusable", "real-threads", f"real threads, model fault at invocation {k}: {line}")
+
     def shrink(self, scn):
+        if scn.get("real_threads"):
+            c = copy.deepcopy(scn)
+            c.pop("real_threads")
+            yield c
         yield from calsim.shrink_scn(scn)
 
 
